@@ -43,6 +43,10 @@ def main():
             import wbfam
 
             return wbfam.check(prop, a.tier)
+        if prop in ("C12", "C17"):
+            import cfgfam
+
+            return cfgfam.check(prop, a.tier)
         if prop in ("C06", "C13", "C14", "C20"):
             import chkfam
 
